@@ -261,7 +261,8 @@ def run(ck, np, rng, thorough):
         return {"sceq_call": call_str(qa, other), "sceq_request": args[i], "case": tag, "implementation": reals[i], "model": outs[i], "spec_verdict": v}
 
     # failing-input search: the Spec on the implementation's own verdicts (all cases, the disagreeing ones first)
-    rejected.sort(key=lambda t: (t[0] not in mm, len(args[t[0]])))
+    mm_set = set(mm)
+    rejected.sort(key=lambda t: (t[0] not in mm_set, " N" in (" " + args[t[0]]), len(args[t[0]])))
     for i, v in rejected[:3]:
         rp = rp_of(i, v)
         ck.violation(f"{rp['sceq_call']} = {bool(int(reals[i]))}: Lean Spec verdict {v} (model says {outs[i]}); case {cases[i][0]}; "
